@@ -313,15 +313,20 @@ func c18Constructors(c *Ctx) {
 			isNew := func(in ssa.Instruction) bool {
 				return isReflectCallOn(in, func(r ssa.Value) bool { return IsFieldLoad(r, "pluginConstructor", "newPlugin") })
 			}
-			inGet, inNew, outGet, outNew := 0, 0, 0, 0
-			EachInstr(cl, func(in ssa.Instruction) {
-				if g(in) {
-					inGet++
+			// per product = per path through the produced function: at most one of each, and some path with one
+			perPath := func(pred func(ssa.Instruction) bool) int {
+				iv := PathQuery{Fn: cl, Weight: func(in ssa.Instruction) (int, int) {
+					if pred(in) {
+						return 1, 1
+					}
+					return 0, 0
+				}}.Count()
+				if iv.NoPath {
+					return 0
 				}
-				if isNew(in) {
-					inNew++
-				}
-			})
+				return iv.Max
+			}
+			inGet, inNew, outGet, outNew := perPath(g), perPath(isNew), 0, 0
 			EachInstr(pnf, func(in ssa.Instruction) {
 				if g(in) {
 					outGet++
